@@ -413,6 +413,19 @@ def _s3(program, res, impl, tmeth):
     res.assumptions.append("null behaviour of numpy.maximum/minimum/fmax/fmin and polars max_horizontal/min_horizontal (sa/facts.py NULL_SEMANTICS)")
 
 
+def sql_division_rule(program, res, dialect, rule):
+    """`/` is true division in Python, Pandas and Polars; SQL's `/` between two integer operands is integer division.  A dialect agrees with
+    the data-frame executors only if `/` goes through a formatter that makes an operand floating (as the library's `%/%` does)."""
+    kind, entry = dialect.resolve("/")
+    if kind == "formatter":
+        res.ok(rule, f"{dialect.name}: `/` is emitted by a formatter")
+    else:
+        res.fail(rule, f"{dialect.module.name.split('.')[-1]}:{dialect.name}", "sql-division-of-integer-operands",
+                 f"{dialect.name}: `i / j` has no formatter and is emitted as the SQL operator `/`: on integer columns SQL truncates (7 / 2 = 3, -7 // 2 = FLOOR(-7 / 2) = -3) "
+                 f"while Pandas and Polars return 3.5 and -4; the library's `%/%` operator exists for this reason (it multiplies by 1.0)",
+                 f"data_algebra/{dialect.module.name.split('.')[-1]}.py", 0)
+
+
 def _s4_slice_contract(program, res):
     """x.trimstr(start, stop) is documented (and implemented on Pandas) as the slice x[start:stop]; SQL's SUBSTR takes a 1-based start and a
     *length*: the template's third SUBSTR argument has to be built from stop and start, not from stop alone"""
